@@ -484,6 +484,8 @@ struct StartWorld : World, vt::Hooks {
 
     StartWorld(const Scenario &sc_, Reporter &rep_, std::size_t pos_) : World(sc_, rep_), pos(pos_) {
         start_mode = true;
+        vt::now = 0;                // a new run starts at virtual time 0
+        vt::post_wait = false;
         first = pos_;
         nc = (int) sc.hdr.at("nc").as_int(1);
         cos.resize((std::size_t) nc + 1);
@@ -667,10 +669,12 @@ int main() {
         while (pos < sc.steps.size() && !rep.failed()) {
             if (start) {
                 StartWorld w(sc, rep, pos);
-                if (pos > 0) {   // the Restart step: a fresh world
+                if (pos > 0) {
+                    // the Restart step: a fresh world; the state it leads to (awaited coroutine running, the
+                    // others queued) is compared at the first event of the new run
                     if (sc.steps[pos].name != "Restart") { rep.error(pos, "Restart expected"); break; }
-                    if (!rep.check(pos, w.project())) break;
-                    w.pos = w.first = pos + 1;
+                    w.first = pos;
+                    w.pos = pos + 1;
                     if (w.pos >= sc.steps.size()) break;
                 }
                 w.run();
